@@ -1353,6 +1353,17 @@ Proof.
   apply (sub_child _ _ _ ex_I2 14); [right; left; reflexivity | apply sub_here].
 Qed.
 
+(** instances of the hypotheses of the validated-step lemmas: two valid dumps whose sets differ
+    by one inserted / one removed key (the second tree is a different shape of the same set) *)
+Definition ex_tree_plus : tree := fst (insert 3 ex_tree 100).
+Definition ex_tree_minus : tree :=
+  Inner [(Inner [(Leaf [1; 2], 3); (Leaf [4], 5)] (Leaf [6; 7; 8]), 9); (Inner [(Leaf [10], 11)] (Leaf [12]), 14)] ex_I3.
+Example ex_steps :
+  wf 3 ex_tree_plus = true /\ elements ex_tree_plus = sinsert 100 (elements ex_tree) /\
+  wf 3 ex_tree_minus = true /\ elements ex_tree_minus = sremove 13 (elements ex_tree) /\
+  covers_upper ex_I1 4 = true /\ upper_bound ex_I1 4 = upper_bound ex_tree 4.
+Proof. vm_compute. intuition. Qed.
+
 (** chunks: three iterator ranges rendered as lists *)
 Example ex_chunks : concat [[1; 2; 3; 4; 5; 6; 7; 8]; [9; 10; 11; 12; 13]; [14; 15; 16; 17; 18]] = elements ex_tree.
 Proof. vm_compute. reflexivity. Qed.
